@@ -207,4 +207,20 @@ M = [('r3_revert_D3_eventmonitor_port',
   [('            scope = self._scope_stack.pop()\n            assert scope == name\n',
     '            assert self._scope_stack.pop() == name\n')],
   None),
+ # survivors of the mutation sweep (tools/mutsweep.py) in the D10 repair
+ ('r13_D10_register_count_not_one',
+  'amaranth_soc/csr/reg.py',
+  [('            if field_path and field_names.count(field_name) == 1:\n',
+    '            if field_path and field_names.count(field_name) != 1:\n')],
+  None),
+ ('r14_D10_bridge_flag_negated',
+  'amaranth_soc/csr/reg.py',
+  [('        unambiguous = len(set(reg_names + ["mux"])) == len(reg_names) + 1\n',
+    '        unambiguous = len(set(reg_names + ["mux"])) != len(reg_names) + 1\n')],
+  None),
+ ('r15_D10_bridge_flag_off_by_one',
+  'amaranth_soc/csr/reg.py',
+  [('        unambiguous = len(set(reg_names + ["mux"])) == len(reg_names) + 1\n',
+    '        unambiguous = len(set(reg_names + ["mux"])) == len(reg_names) + 2\n')],
+  None),
 ]
